@@ -249,6 +249,7 @@ type world struct {
 	shutdown       bool   // pool.Shutdown() was called
 	poisoned       bool   // a stream was leased on a connection nobody reads (async pools) or an event self-deadlocked: no event can be applied safely any more
 	stuck          bool   // a goroutine is (or would be) stuck inside this world: never touch or clean it up
+	sched          bool   // schedule mode (E1): events run on threads of the controlled scheduler
 	deadlock       string // class of the self-deadlock the last event ran into
 	deadlockDetail string
 	base           [4]int64
@@ -341,6 +342,9 @@ func (w *world) waitFor(what string, s *strmT, pred func() bool) bool {
 	if pred() {
 		return true
 	}
+	if w.sched {
+		return true // schedule mode: the final vrt.Quiesce() gives exact quiescence, nothing waits in between
+	}
 	if !w.d.Async() {
 		return false
 	}
@@ -366,7 +370,7 @@ func (w *world) waitFor(what string, s *strmT, pred func() bool) bool {
 // inject delivers bytes to the connection; for async pools it runs on a helper
 // goroutine so that a reader that never comes cannot hang the harness silently.
 func (w *world) inject(c *connT, b []byte) bool {
-	if !w.d.Async() {
+	if !w.d.Async() || w.sched {
 		c.fc.InjectRead(b)
 		return true
 	}
@@ -408,7 +412,9 @@ func taint(c *connT, t string) {
 
 // apply applies one event; returns the outcome class (goes into finding keys and outcome statistics).
 func (w *world) apply(ev string) (outcome string) {
-	w.lease = nil
+	if !w.sched {
+		w.lease = nil
+	}
 	name, arg := ev, -1
 	if i := strings.IndexByte(ev, ':'); i >= 0 {
 		name = ev[:i]
@@ -435,6 +441,9 @@ func (w *world) apply(ev string) (outcome string) {
 	}
 	switch name {
 	case "new", "new/cf", "new/ct", "new/cf1":
+		if w.sched {
+			return w.newStreamSched()
+		}
 		return w.newStream(name)
 	case "reply", "reply+goaway":
 		s := getS()
